@@ -27,6 +27,28 @@ HAND = [
 ]
 
 
+def must_not_spin_shapes():
+    """loop bodies that can complete without consuming a byte, with a data-dependent exit: accepted or not, feed must return"""
+    nonconsuming = [
+        'case {\n   "a" -> { n = [n + 1]; }\n   else -> { }\n  }',
+        'try {\n   "a";\n   n = [n + 1];\n  }\n  catch (nomatch) {\n  }',
+        'try {\n   s += /a+/;\n  }\n  catch {\n  }',
+        'optional {\n   "a";\n  }',
+        'case {\n   "a" -> { }\n   else -> { s += [65]; }\n  }',
+        'try {\n   case {\n    "a" -> { }\n    "b" -> { n = 1; }\n   }\n  }\n  catch (nomatch) {\n   h();\n  }',
+    ]
+    exits = ['if n == 3 {\n   break;\n  }', 'if s.len == 2 {\n   break;\n  }', 'if n > 100 {\n   finish;\n  }', 'if n == 3 {\n   break;\n  }\n  else {\n   n = [n];\n  }', '']
+    out = []
+    for body in nonconsuming:
+        for ex in exits:
+            src = "out int n = 0;\nout str[3] s;\nhook h;\nparser {\n loop {\n  %s\n  %s\n }\n \"z\";\n}\n" % (body, ex)
+            out.append((src, [], [b"ab", b"b", b"aab", b"aaab", b"aaaaaaaab", b"zz"]))
+            src2 = "out int n = 0;\nout str[3] s;\nhook h;\nparser {\n \"k\";\n loop {\n  %s\n  %s\n }\n \"z\";\n}\n" % (ex, body) if ex else None
+            if src2:
+                out.append((src2, [], [b"kab", b"kb", b"kaaab", b"kz"]))
+    return out
+
+
 def cycle_candidates(m, dfa, max_c=40):
     """(state index, symbol) pairs from which a cycle of non-consuming moves is reachable. Workload only."""
     Else, End = m.DFTransition.Else, m.DFTransition.End
@@ -119,7 +141,7 @@ def run(ctx: Ctx):
     pool3, st3 = work.generated_pool(rng, n_gen, profile={"eof": True, "w": {"try_": 12, "wait": 6, "loop": 8}},
                                      args_fn=lambda rng, ast: [rng.choice(["-O0", "-O1", "-O3"]), "-findirect-start-ptr"])
     entries = [(ast, src, args, None) for ast, src, args, r in pool + pool2 + pool3]
-    for src, args, ins in HAND:
+    for src, args, ins in HAND + must_not_spin_shapes():
         entries.append((None, src, args + ["-findirect-start-ptr"], ins))
     ctx.cov.update({"programs_generated": st["generated"] + st2["generated"] + st3["generated"], "programs_accepted": len(entries)})
     for chunk in work.chunked(entries, 28):
